@@ -153,11 +153,11 @@ def mutate_once(s, op, a, b, c, keywords, donor):
             st = statements(s)
             if not st:
                 return s
-            x = st[a % len(st)]
+            x = st[(a // 3) % min(len(st), 3)] if a % 3 == 0 else st[a % len(st)]  # 1/3: one of the header statements
             tb = [m.end() for m in _TOK.finditer(s, x[0], x[1])]
             if not tb:
                 return s
-            return s[:tb[b % min(len(tb), 6)]]
+            return s[:tb[b % min(len(tb), 12)]]
         tb = [m.end() for m in _TOK.finditer(s)]
         if not tb:
             return s
@@ -284,6 +284,15 @@ def outside_domain(text, allowed=""):
         if p in u:
             return True
     return bool(_SO.search(u) or _QUOTE_PATH.search(u))
+
+
+_LARGE = re.compile(r"(?<![0-9.])[0-9]{6,}(?![0-9.eE])")
+
+
+def has_large_number(text):
+    """an integer literal of 6 digits or more: the work requested by the input (numbers of steps,
+    elements, iterations, array sizes...) may legitimately be huge"""
+    return bool(_LARGE.search(text))
 
 
 def fnv64(data):
